@@ -64,7 +64,8 @@ add('C04', 'breaker', 'sline-wrong-indent', [(L, 'yield SLine(indent)', 'yield S
 add('C04', 'breaker', 'nest-ignores-amount', [(L, '''            # Increase indentation and process the nested doc.
             triplestack.append((indent + doc.indent, mode, doc.doc))''', '''            # Increase indentation and process the nested doc.
             triplestack.append((indent, mode, doc.doc))''')], 'C04.c')
-add('C04', 'breaker', 'alwaysbreak-inherits-mode', [(L, 'triplestack.append((indent, BREAK_MODE, doc.doc))\n        elif isinstance(doc, SAnnotationPop)', 'triplestack.append((indent, mode, doc.doc))\n        elif isinstance(doc, SAnnotationPop)')], 'C04.d')
+# both fitting predicates refuse an AlwaysBreak, so best_layout never meets one in flat mode: inheriting the mode there changes nothing
+add('C04', 'twin', 'alwaysbreak-inherits-mode-unreachable-in-flat', [(L, 'triplestack.append((indent, BREAK_MODE, doc.doc))\n        elif isinstance(doc, SAnnotationPop)', 'triplestack.append((indent, mode, doc.doc))\n        elif isinstance(doc, SAnnotationPop)')])
 add('C04', 'breaker', 'alwaysbreak-fits-in-smart', [(L, '''        elif isinstance(doc, AlwaysBreak):
             return False
         elif doc is HARDLINE:
